@@ -9,7 +9,15 @@ import (
 
 // vxKeys: two keys of adversarial shape: short symbolic ones that may be equal or
 // prefixes of each other.
-func vxShortKey(p string) string { return vxStr(p, vxChoice(p+".len", 3)) }
+func vxShortKey(p string) string { return vxStr(p, vxChoice(p+".len", vxMaxLen())) }
+
+// vxMaxLen: key and value lengths 0..2 (quick) or 0..3 (thorough)
+func vxMaxLen() int {
+	if vxTier() == "thorough" {
+		return 4
+	}
+	return 3
+}
 
 func vxBytesEq(a, b []byte) bool {
 	if len(a) != len(b) {
@@ -25,11 +33,9 @@ func vxBytesEq(a, b []byte) bool {
 // VxC14_Ops: a sequence of Set/Get/Delete/Keys calls on the file-system backend (with a
 // reopen between any two of them) answers exactly as a map would (C14, C09).
 func VxC14_Ops() {
-	n := 3
-	if vxTier() == "thorough" {
-		n = 4
-	}
-	vxOps(nil, n)
+	// (thorough widens keys and values to 0..3 bytes; a fourth operation exceeds three
+	// million paths and was dropped)
+	vxOps(nil, 3)
 }
 
 // VxC14_OpsEnc: the same over the encrypted file-system backend (AES-GCM as its
@@ -55,7 +61,7 @@ func vxOps(opts []Option, n int) {
 		k := keys[vxChoice("key"+s, 2)]
 		switch vxChoice("op"+s, 4) {
 		case 0: // Set
-			v := []byte(vxStr("v"+s, vxChoice("vlen"+s, 3)))
+			v := []byte(vxStr("v"+s, vxChoice("vlen"+s, vxMaxLen())))
 			buf := append([]byte(nil), v...)
 			err := c.Set(k, buf)
 			vxAssert(err == nil, "C14/set-failed")
